@@ -906,6 +906,46 @@ func c13Direct(c *Ctx, r *Result, idx int, seed int64, nearMiss, overlap bool, c
 		}
 	}
 
+	// ---- the decidable hypotheses of the global theorems, evaluated by the driver on this input ----
+	{
+		covered := inDomain && !nearMiss && !overlap
+		for t := range g.tags {
+			if !c13CoveredTags[t] {
+				covered = false
+			}
+		}
+		wf, clean, ok := c13Hyp(c, ps, outsPath, params, outs, before.enc(c13Ancestors(root)))
+		if !ok {
+			r.violate(Violation{Kind: "correspondence", Key: "C13:driver", What: "hyp reply unreadable", Input: cas, Broken: "driver"})
+		} else {
+			r.hist(fmt.Sprintf("direct:hyp:wfParams:%v", wf))
+			r.hist(fmt.Sprintf("direct:hyp:cleanB:%v", clean))
+			if covered {
+				r.hist(fmt.Sprintf("direct:hyp:covered-run:wf=%v,clean=%v", wf, clean))
+			}
+			if wf && clean && perr == nil && (g.tags["overlap"] || g.tags["symlinked-parent-outside"]) {
+				// a leaf below a symlinked directory: the abstract file system has no entry there
+				// ("missing"), the real code resolves the parent (not modelled; F20 / F23)
+				r.hist("direct:record-half:skipped-symlinked-parent")
+			} else if wf && clean && perr == nil {
+				// the hypotheses of content_preserved(_record) hold on this input: the real record must
+				// be the one the theorem promises (every file leaf -> its destination path / null)
+				r.hist("direct:record-half:checked")
+				xr := strings.Split(c.Drv.Ask("C13.run", "x", "g", hx(ps), hx(outsPath), c13EncParams(params), outs.encStr(), before.enc(c13Ancestors(root))), "\t")
+				if len(xr) != 2 || unhx(xr[0]) != realStr {
+					r.violate(Violation{Kind: "correspondence", Key: "C13:model-record-half", Broken: "content_preserved_record (pureOuts / expectVal)",
+						What:  "wfParams and Clean hold, but the real rewritten record is not the input with every file leaf replaced by its destination path / null",
+						Input: cas, Impl: strings.ReplaceAll(realStr, root, "$ROOT"), Model: strings.ReplaceAll(unhx(xr[0]), root, "$ROOT")})
+				}
+			}
+			if !wf || (covered && !clean) {
+				r.violate(Violation{Kind: "correspondence", Key: "C13:hypothesis-fails-on-covered-run", Broken: "dest_injective / content_preserved (hypotheses wfParams, Clean)",
+					What:  fmt.Sprintf("a hypothesis of the global theorems fails on a run they are said to cover: wfParams=%v (signature accepted by the compiler) cleanB=%v (all leaves missing or regular files/directories inside the pipestance)", wf, clean),
+					Input: cas})
+			}
+		}
+	}
+
 	// ---- the model ----
 	if g.tags["overlap"] || g.tags["symlinked-parent-outside"] {
 		return true // intermediate symlinked directories are not modelled
@@ -996,6 +1036,21 @@ func c13Direct(c *Ctx, r *Result, idx int, seed int64, nearMiss, overlap bool, c
 		r.sample(map[string]interface{}{"direct": cas.Outs, "types": c13EncParams(params), "result": strings.ReplaceAll(realStr, root, "$ROOT")})
 	}
 	return true
+}
+
+// leaf kinds for which the manifest says the GLOBAL content_preserved applies
+var c13CoveredTags = map[string]bool{"file": true, "dir": true, "missing": true, "null": true, "empty-string": true,
+	"empty-array": true, "empty-map": true, "multidim": true}
+
+// c13Hyp: wfParams and cleanB as evaluated by the driver.
+func c13Hyp(c *Ctx, ps, outsPath string, params []c13Member, outs *c13J, fsEnc string) (wf, clean, ok bool) {
+	reply := c.Drv.Ask("C13.hyp", hx(ps), hx(outsPath), c13EncParams(params), outs.encStr(), fsEnc)
+	var w, cl string
+	var n int
+	if _, err := fmt.Sscanf(reply, "wf=%s clean=%s leaves=%d", &w, &cl, &n); err != nil {
+		return false, false, false
+	}
+	return w == "true", cl == "true", true
 }
 
 // c13FailKey classifies a property failure for known-findings matching.
@@ -1118,6 +1173,12 @@ func runC13(c *Ctx) {
 
 	// writer round trip on the model side (parse ∘ emit) for generated trees
 	c13WriterRoundTrip(c, r)
+
+	// the forced-dimension modes of the driver on the input of multidim_not_moved_before_fix
+	c13DimWitness(c, r)
+
+	// the record writer (writeAtomic / os.WriteFile) under RLIMIT_FSIZE vs writeCut
+	c13WriterStream(c, r)
 
 	t0 := time.Now()
 	nDirect := 1200
@@ -1333,4 +1394,23 @@ func c13SimulateMove(sd c13SrcDest, steps int) bool {
 		}
 	}
 	return true
+}
+
+// c13DimWitness: Props.C13.multidim_not_moved_before_fix through the driver (one parameter,
+// dimAware forced off / on): `file[][] r = [["/ps/f"]]` is returned unchanged by the code before
+// the F5 repair and moved to outs/r/0/0 by the repaired one.
+func c13DimWitness(c *Ctx, r *Result) {
+	params := []c13Member{{Id: "r", Ty: &c13Ty{Kind: "a", Extra: 1, Elem: &c13Ty{Kind: "f", Mro: "file"}}}}
+	v := &c13J{K: 'A', Arr: []*c13J{{K: 'A', Arr: []*c13J{c13Str("/ps/f")}}}}
+	fs := c13Tree{"/ps": "D", "/ps/f": "F7"}
+	for _, da := range []string{"f", "t"} {
+		reply := c.Drv.Ask("C13.run", "p", da, hx("/ps"), hx("/ps/outs"), c13EncParams(params), v.encStr(), fs.enc(nil))
+		parts := strings.Split(reply, "\t")
+		want := map[string]string{"f": `[["/ps/f"]]`, "t": `[["/ps/outs/r/0/0"]]`}[da]
+		if len(parts) != 2 || unhx(parts[0]) != want {
+			r.violate(Violation{Kind: "correspondence", Key: "C13:dim-witness", Broken: "multidim_not_moved_before_fix",
+				What: "driver mode p/" + da + " on the witness of multidim_not_moved_before_fix", Input: v.String(), Model: c13Short(reply), Expect: want})
+		}
+		r.hist("dim-witness:" + da)
+	}
 }
